@@ -270,6 +270,13 @@ func (c *Ctx) indexDischarge(fn *ssa.Function, at ssa.Instruction, x, idx ssa.Va
 	if by, ok := c.linearBound(idx, x, atoms, at.Block(), 0); ok {
 		return by, true
 	}
+	// the index expression itself (same key) was compared with the length: i+1 < len(x) … x[i+1]
+	ik, lk := c.key(idx, nil), "len("+c.key(x, nil)+")"
+	for _, a := range atoms {
+		if a.Kind == "cmp" && a.Subj == ik && a.Op == "<" && a.Val == lk && c.nonNegative(idx, atoms, map[ssa.Value]bool{}) {
+			return "dominating fact " + a.String() + " on the index expression, which is non-negative by construction", true
+		}
+	}
 	return "", false
 }
 
